@@ -238,7 +238,7 @@ ARITH = {
 }
 
 
-def run_chain(darsia, rng, tid, forms, R):
+def run_chain(darsia, rng, tid, forms, R, adopt=None):
     P = make_pool(darsia, rng)
     events = []
     np.random.seed(rng.randrange(2 ** 31))
@@ -267,7 +267,7 @@ def run_chain(darsia, rng, tid, forms, R):
         if res is not None and hasattr(res, "img") and hasattr(res, "metadata") and i < len(forms) - 1:
             key = f"r{i}"
             P[key] = res
-            if (rng.random() < 0.5 and res.img.shape == P["A"].img.shape and res.scalar and res.space_dim == 2 and not res.series and res.img.dtype == P["A"].img.dtype
+            if ((rng.random() < 0.5 if adopt is None else adopt) and res.img.shape == P["A"].img.shape and res.scalar and res.space_dim == 2 and not res.series and res.img.dtype == P["A"].img.dtype
                     and np.allclose(res.dimensions, P["B"].dimensions) and np.allclose(np.asarray(res.origin), np.asarray(P["B"].origin))):   # preconditions of the binary forms (same coordinate system)
                 P["A_prev"], P["A"] = P["A"], res    # the next steps use the result as receiver; the old receiver stays observed
     return events
@@ -293,13 +293,27 @@ def run(ck, replay=None):
             chains.append([n])
         for hist in (model_chains if not quick else rng.sample(model_chains, 40)):   # sharing chains from the model
             chains.append([{"derive": rng.choice(["add", "mul_float", "subregion_slices", "ctor_from_metadata", "copy"]), "height": "ctor_from_metadata_height"}[h[0]] for h in hist])
+        # every form twice in a row, the first result (a) kept as a bystander of the second call, (b) used as its receiver
+        # where it fits; and each form followed by a related form of the same family (same kind of result, other operands)
+        for n in names:
+            chains.append(("keep", [n, n]))
+            chains.append(("adopt", [n, n]))
+        fams = {}
+        for n in names:
+            fams.setdefault(n.split("_")[0], []).append(n)
+        fpairs = [("keep", [a_, b_]) for fam in fams.values() for a_ in fam for b_ in fam if a_ != b_]
+        chains += fpairs if not quick else rng.sample(fpairs, min(len(fpairs), 40)) + [p_ for p_ in fpairs if p_[1][0].startswith(("superpose", "stack"))]
         for _ in range(30 if quick else 600):  # seeded chains of up to five forms on shared operands
             chains.append([rng.choice(names) for _ in range(rng.randint(2, 5))])
     events, info = [], {}
     for ci, ch in enumerate(chains):
         tid = f"k{ci}"
+        adopt = None
+        if isinstance(ch, tuple):
+            adopt, ch = ch[0] == "adopt", ch[1]
+            chains[ci] = ch
         info[tid] = ch
-        events += run_chain(darsia, rng, tid, ch, R)
+        events += run_chain(darsia, rng, tid, ch, R, adopt)
     bad = ck.validate("Trace_Frame", "Trace.cfg", events, chunk=600)
     for b in bad:
         e = b["event"]
